@@ -282,6 +282,9 @@ impl Property for C16 {
     fn id(&self) -> &'static str {
         "C16"
     }
+    fn ir_shrinkable(&self) -> bool {
+        true
+    }
     fn rule(&self) -> String {
         "cases: programs from the typed generator with the allocation profile (arrays simple and compound of size 0-40, objects with 0-6 fields and 0-4 methods with names of varied length, in loops, functions and as parents; ~12% fail mid-way; some allocate nothing). In-process for every case: State::from + heap.set_log + step loop; for a sample the real `fml run` with --heap-log FILE, --heap-log into a not-yet-existing directory, --heap-size in {0,1,7,4096,2^20} (for a sub-sample also 2^44 and u64::MAX on release AND debug binaries), and `fml compile` + `fml execute` with and without the flags. oracle: header exactly `timestamp,event,heap`, one S record with heap 0, then exactly as many A records as the reference semantics' allocation history (up to the failure), decimal timestamps, strictly increasing cumulative sizes whose increments are a function of the created value's shape (array length; multisets of field- and method-name lengths) - checked against a table seeded by calibration probes and extended by every observation; stdout and zero/non-zero status identical under every flag combination. non-trivial: >=3 allocations of >=2 different shapes; distinct by source".into()
     }
